@@ -4,6 +4,7 @@ import (
 	"go/ast"
 	"go/token"
 	"go/types"
+	"strings"
 
 	"verifcheck/core"
 )
@@ -616,7 +617,7 @@ func runC04(c *Ctx) {
 		c.Expect("C04-R4", s.callee+" calls in "+s.handler, found, 1)
 	}
 
-	c.Rule("C04-R5", "getExistingName adopts the spelling of an existing name's part only when all higher-level parts of that same existing name match (hierarchical canonicalisation)")
+	c.Rule("C04-R5", "getExistingName adopts the spelling of an existing name's part only when all higher-level parts of that same existing name match (hierarchical canonicalisation), or after a pass over the existing names that returned the one equal to the request in all four parts ignoring case (then no mix of parts can complete an existing name in another spelling)")
 	if f := c.Fn("C04-R5", "server", "getExistingName"); f != nil {
 		g := c.G(f)
 		levels := []string{"Host", "Namespace", "Model", "Tag"}
@@ -650,6 +651,11 @@ func runC04(c *Ctx) {
 				if !matched[levels[i]] {
 					ok = false
 				}
+			}
+			if !ok && wholeNameFirst(g, f, h.Loc, h.Node) {
+				// the other sufficient form: an earlier pass over the existing names returned the one that
+				// equals the request in all four parts, so what is adopted here cannot complete an existing name
+				ok = true
 			}
 			c.Check("C04-R5", f.Key()+" adopt:"+part, c.Pos(h.Node), ok, "part "+part+" of an existing name is adopted without its higher-level parts matching: with a/Foo:latest and b/foo:latest present, b/foo may come back as b/Foo (map order) and a re-create adds b/Foo next to b/foo")
 		}
@@ -759,4 +765,54 @@ func runC12(c *Ctx) {
 			}
 		}
 	}
+}
+
+// wholeNameFirst: is loc dominated by a test `e.EqualFold(n)` (n the function's name parameter, e an
+// existing name) on whose true edge e is returned?
+func wholeNameFirst(g *core.Graph, f *core.Func, loc core.Loc, at ast.Node) bool {
+	info := f.Info()
+	param := paramAt(f, 0)
+	for _, cb := range g.CondBlocks() {
+		if cb.Cond == nil {
+			continue
+		}
+		call, isC := ast.Unparen(cb.Cond).(*ast.CallExpr)
+		if !isC || !strings.HasSuffix(core.CalleeName(info, call), "types/model.Name.EqualFold") || len(call.Args) != 1 {
+			continue
+		}
+		se, isSel := ast.Unparen(call.Fun).(*ast.SelectorExpr)
+		if !isSel {
+			continue
+		}
+		var other ast.Expr
+		switch {
+		case isIdentOf(info, call.Args[0], param):
+			other = se.X
+		case isIdentOf(info, se.X, param):
+			other = call.Args[0]
+		default:
+			continue
+		}
+		// the test sits in a loop over the existing names; that loop (entered or not) comes before loc
+		var loop ast.Stmt
+		for _, anc := range ancestorsOf(f.Body, cb.Cond) {
+			if rs, isR := anc.(*ast.RangeStmt); isR {
+				loop = rs
+			}
+		}
+		if loop == nil || !g.Dominates(g.Locate(loop), loc) || within(loop, at) {
+			continue
+		}
+		for _, ex := range g.Returns() {
+			if len(ex.Return.Results) < 1 || core.ExprString(ex.Return.Results[0]) != core.ExprString(other) {
+				continue
+			}
+			for _, a := range g.AtomsAt(ex.Loc) {
+				if ast.Unparen(a.Expr) == ast.Expr(call) && a.Val {
+					return true
+				}
+			}
+		}
+	}
+	return false
 }
